@@ -36,7 +36,7 @@ def classify(component, what, case):
             return "F50"
         if line.split()[2:5] == ["dict", "8", "0"] and ".2.1," in line and ("leaks memory" in what or "content differs" in what or "differs from the number" in what) \
                 and line.split()[-1] in [w.split()[-1] for w in htcomp.F50_WITNESSES]:
-            return "F50"
+            return "F50"      # variant (B): exactly the listed witness (the entry of the long string is replaced, the string leaks)
     if c17life is not None:
         return c17life.classify(component, what, case)
     return None
